@@ -48,6 +48,7 @@ type cloneScript struct {
 	// builtin module "st" built from this template; every clone installs its own instance with
 	// ReplaceBuiltinModule("st", template) before it runs (the documented way to give clones private modules)
 	template func() map[string]tengo.Object
+	rounds   int // Set + Run repeated (default once): the host's Set after a run meets what the run left in the globals
 }
 
 var curTemplate map[string]tengo.Object // the embedder's attribute table of the harness being explored
@@ -68,6 +69,9 @@ var cloneScripts = []cloneScript{
 		template: func() map[string]tengo.Object {
 			return map[string]tengo.Object{"state": &tengo.Map{Value: map[string]tengo.Object{"n": &tengo.Int{Value: 0}}}}
 		}},
+	// after a run the input variable holds a literal of the script, i.e. a constant object shared by all clones; the
+	// next Set must replace the variable's value, not write into that object
+	{name: "input-reassigned-to-literal", src: `b := a; a = 3; out := b * 100 + a`, inputs: map[string]interface{}{"a": 0}, sets: []int{1, 2, 4}, rounds: 2},
 	{name: "runtime-error-in-module", src: `m := import("mod")
 out := m.f(a)`, mods: map[string]string{"mod": `export {f: func(x) {
 	if x > 1 {
@@ -119,12 +123,16 @@ func compileClone(sc cloneScript) *tengo.Compiled {
 	return c
 }
 
-func runOne(cl *tengo.Compiled, a int) string {
+func runOne(cl *tengo.Compiled, a int, rounds int) string {
 	if curTemplate != nil {
 		cl.ReplaceBuiltinModule("st", curTemplate)
 	}
 	_ = cl.Set("a", a)
 	err := cl.Run()
+	for r := 1; r < rounds && err == nil; r++ {
+		_ = cl.Set("a", a+10*r)
+		err = cl.Run()
+	}
 	var parts []string
 	for _, v := range cl.GetAll() {
 		parts = append(parts, v.Name()+"="+val.Snapshot(v.Object()))
@@ -146,7 +154,7 @@ func (h cloneHarness) Start(s *vsched.Sched) vsched.World {
 	}
 	base := compileClone(h.sc)
 	for i := 0; i < h.k; i++ {
-		w.want[i] = runOne(base.Clone(), h.sc.sets[i])
+		w.want[i] = runOne(base.Clone(), h.sc.sets[i], h.sc.rounds)
 	}
 	if h.sc.template != nil {
 		curTemplate = h.sc.template() // a fresh table for the explored run (the baseline may have been written through)
@@ -160,7 +168,7 @@ func (h cloneHarness) Start(s *vsched.Sched) vsched.World {
 	for i := 0; i < h.k; i++ {
 		i := i
 		s.Spawn(fmt.Sprintf("clone%d", i), func() {
-			w.results[i] = runOne(w.clones[i], h.sc.sets[i])
+			w.results[i] = runOne(w.clones[i], h.sc.sets[i], h.sc.rounds)
 			w.done[i] = true
 		})
 	}
